@@ -508,6 +508,22 @@ var pvTargets = []mgTarget{
 	{"pkg/openid/client/logout_frontchannel.go", "NewLogoutFrontchannel", "newLogoutFrontchannel"},
 	{"pkg/openid/client/logout_frontchannel.go", "LogoutFrontchannel.Sid", "frontchannelSid"},
 	{"pkg/openid/client/logout_frontchannel.go", "LogoutFrontchannel.MissingSidParameter", "frontchannelMissingSid"},
+	{"pkg/openid/provider/provider.go", "JwksProvider.GetPublicJwkSet", "jwksGet"},
+	{"pkg/openid/provider/provider.go", "JwksProvider.RefreshPublicJwkSet", "jwksRefresh"},
+	{"pkg/openid/provider/provider.go", "NewJwksProvider", "newJwksProvider"},
+	{"pkg/openid/provider/provider.go", "keySetMutator", "keySetMutator"},
+	{"pkg/middleware/ingress.go", "IngressMiddleware.Handler", "ingressMiddleware"},
+	{"pkg/handler/autologin/autologin.go", "New", "autologinNew"},
+	{"pkg/openid/config/provider.go", "provider.SidClaimRequired", "sidClaimRequired"},
+	{"pkg/openid/config/provider.go", "provider.SessionStateRequired", "sessionStateRequired"},
+	{"pkg/openid/config/provider.go", "provider.AuthorizationResponseIssParameterSupported", "issParameterSupported"},
+	{"pkg/openid/config/provider.go", "provider.Issuer", "providerIssuer"},
+	{"pkg/openid/config/provider.go", "provider.JwksURI", "providerJwksURI"},
+	{"pkg/openid/config/provider.go", "provider.TokenEndpoint", "providerTokenEndpoint"},
+	{"pkg/openid/config/provider.go", "Supported.Contains", "supportedContains"},
+	{"pkg/config/openid.go", "OpenID.TrustedAudiences", "trustedAudiences"},
+	{"pkg/openid/config/client.go", "client.Audiences", "clientAudiences"},
+	{"pkg/openid/config/client.go", "client.ClientID", "clientClientID"},
 }
 
 // start-up: configuration validation and the order of run() (C20)
@@ -539,7 +555,49 @@ var suTargets = []mgTarget{
 	{"pkg/session/session_reader.go", "NewReader", "newReader"},
 }
 
+// small helpers the other groups lean on: request parameters, cookie readers, keys, callback URLs, memory store (C02 C05 C07 C10 C13 C17)
+var msTargets = []mgTarget{
+	{"pkg/openid/oauth2.go", "RequestParams.With", "paramsWith"},
+	{"pkg/openid/oauth2.go", "RequestParams.AuthCodeOptions", "paramsAuthCodeOptions"},
+	{"pkg/openid/oauth2.go", "RequestParams.URLValues", "paramsURLValues"},
+	{"pkg/openid/oauth2.go", "ExchangeAuthorizationCodeParams", "exchangeParams"},
+	{"pkg/openid/oauth2.go", "RefreshGrantParams", "refreshGrantParams"},
+	{"pkg/openid/oauth2.go", "ClientAuthSecretParams", "clientAuthSecretParams"},
+	{"pkg/openid/oauth2.go", "ClientAuthJwtBearerParams", "clientAuthJwtBearerParams"},
+	{"pkg/openid/cookies.go", "GetLoginCookie", "getLoginCookie"},
+	{"pkg/openid/cookies.go", "GetLogoutCookie", "getLogoutCookie"},
+	{"pkg/session/id.go", "ExternalID", "externalID"},
+	{"pkg/session/id.go", "getSessionStateFrom", "getSessionStateFrom"},
+	{"pkg/session/session_manager.go", "manager.key", "managerKey"},
+	{"pkg/session/lock.go", "lockKey", "lockKey"},
+	{"pkg/session/lock.go", "NewRedisLock", "newRedisLock"},
+	{"pkg/session/store_memory.go", "memorySessionStore.Read", "memoryRead"},
+	{"pkg/session/store_memory.go", "memorySessionStore.Write", "memoryWrite"},
+	{"pkg/session/store_memory.go", "memorySessionStore.Delete", "memoryDelete"},
+	{"pkg/session/store_memory.go", "memoryLock.Acquire", "memoryLockAcquire"},
+	{"pkg/session/store_memory.go", "memoryLock.Release", "memoryLockRelease"},
+	{"pkg/url/url.go", "LoginCallback", "urlLoginCallback"},
+	{"pkg/url/url.go", "LogoutCallback", "urlLogoutCallback"},
+	{"pkg/url/url.go", "makeCallbackURL", "makeCallbackURL"},
+	{"pkg/url/url.go", "MatchingIngress", "urlMatchingIngress"},
+	{"pkg/url/url.go", "MatchingPath", "urlMatchingPath"},
+	{"pkg/url/url.go", "LoginRelative", "urlLoginRelative"},
+	{"pkg/handler/error.go", "getRetryAttempts", "getRetryAttempts"},
+	{"pkg/handler/error.go", "Standalone.defaultErrorResponse", "defaultErrorResponse"},
+	{"pkg/handler/handler.go", "Standalone.Wildcard", "standaloneWildcard"},
+	{"pkg/handler/path.go", "GetPath", "handlerGetPath"},
+	{"pkg/handler/handler_sso_proxy.go", "removeMiddlewareHeaders", "removeMiddlewareHeaders"},
+	{"internal/http/middleware.go", "DisallowNonNavigationalRequests", "disallowNonNavigational"},
+	{"pkg/strings/generator.go", "GenerateBase64", "generateBase64"},
+	{"pkg/strings/generator.go", "Generate", "generateBytes"},
+	{"pkg/cookie/cookie.go", "ConfigureCookieNamesWithPrefix", "configureCookieNames"},
+	{"pkg/cookie/cookie.go", "SetLegacyCookie", "setLegacyCookie"},
+	{"pkg/cookie/cookie.go", "ClearLegacyCookies", "clearLegacyCookies"},
+}
+
 func genManager() {
+	genSkeletons("Helpers.lean", "Ww.Gen.Helpers", "Helpers", "-- Control-flow skeletons of small helpers (request parameters, cookie readers, keys, callback URLs, memory store), statement by statement in source order.\n",
+		"import Ww.Gen.Manager\n", false, msTargets)
 	genSkeletons("Startup.lean", "Ww.Gen.Startup", "Startup", "-- Control-flow skeletons of start-up: run(), the mode constructors and every configuration validation, statement by statement in source order.\n",
 		"import Ww.Gen.Manager\n", false, suTargets)
 	genSkeletons("Provider.lean", "Ww.Gen.Provider", "Provider", "-- Control-flow skeletons of the provider-facing code (token validation, grants, logout), statement by statement in source order.\n",
@@ -625,6 +683,29 @@ func genSkeletons(file, ns, section, comment, imports string, declTypes bool, ta
 			fmt.Fprintf(&b, "  %s%s\n", o, sep)
 		}
 		b.WriteString("]\n\n")
+	}
+	if file == "Helpers.lean" || file == "Envelope.lean" {
+		// which packages the random bytes come from: the import lists of the files that read `rand.Reader` / call `cryptorand.Read`
+		for _, imp := range []struct{ file, lean string }{{"pkg/strings/generator.go", "generatorImports"}, {"internal/crypto/crypter.go", "crypterImports"}} {
+			if (file == "Helpers.lean") != (imp.lean == "generatorImports") {
+				continue
+			}
+			f := files[imp.file]
+			if f == nil {
+				f = parseFile(fset, imp.file)
+			}
+			var names []string
+			if f != nil {
+				for _, is := range f.Imports {
+					n := is.Path.Value
+					if is.Name != nil {
+						n = strconv.Quote(is.Name.Name + "=" + strings.Trim(is.Path.Value, "\""))
+					}
+					names = append(names, n)
+				}
+			}
+			fmt.Fprintf(&b, "/-- %s: import list (alias=path for renamed imports) -/\ndef %s : List String := [%s]\n\n", imp.file, imp.lean, strings.Join(names, ", "))
+		}
 	}
 	b.WriteString("end " + ns + "\n")
 	writeGen(file, b.String())
